@@ -19,8 +19,10 @@ Count(s, x) == Cardinality({ i \in 1 .. Len(s) : s[i] = x })
 Range(s) == { s[i] : i \in 1 .. Len(s) }
 
 Visible(w, d, mn) == { n \in NodeIds(w) : (d = 0 \/ LevelBelow(w, 0, n) <= d) /\ (mn = 0 \/ LevelBelow(w, 0, n) >= mn) }
+(* (a stored mode without type bits is shown like a plain file's) *)
+MemberMode(mode) == IF TypeNibble(mode) = 0 THEN <<"-">> \o Tail(ModeChars(mode)) ELSE ModeChars(mode)
 MemberRows(w, d, mn) == UNION { { << "[./" \o RelPath(w, z) \o "] " \o w.nodes[z].zip[k].name, ToString(ContentLen(w.nodes[z].zip[k].content)),
-                              BoolText(w.nodes[z].zip[k].isdir), Str(ModeChars(w.nodes[z].zip[k].mode)), Stamp(w.nodes[z].zip[k].dos),
+                              BoolText(w.nodes[z].zip[k].isdir), Str(MemberMode(w.nodes[z].zip[k].mode)), Stamp(w.nodes[z].zip[k].dos),
                               BoolText(Bit(w.nodes[z].zip[k].mode, 2048)), BoolText(Bit(w.nodes[z].zip[k].mode, 1024)) >>
                             : k \in 1 .. Len(w.nodes[z].zip) }
                           : z \in { n \in Visible(w, d, mn) : w.nodes[n].iszip } }
